@@ -19,6 +19,7 @@ Requests (hex = lower-case hex, `-` = empty byte string):
   decv <Name> <strict|lenient> <hex>   decode bytes into a value of the table's type → `ok <value…>` | `err`
   acc <accessor> <strict|lenient> <hex>  a partial-decoder accessor on one stored record → `ok <value…>` | `err`
   utf8 <hex>                is the byte string valid UTF-8                    → `true` | `false`
+  lim <maxArray> <maxMap> <maxNest> <hex>   does the limited decoder accept the item → `ok` | `rejected` | `err`
 
 Value syntax (prefix form, space separated):
   n | _ | u<dec> | T | F | s<hex> | b<hex> | f<hex>,<hex>,<hex>,<hex> | r<hex of the item's CBOR>
@@ -193,6 +194,13 @@ def step (s : Unit) (line : String) : Unit × String :=
       | some out => (s, out)
       | none => (s, "bad-op")
     | _, _ => (s, "bad-op")
+  | ["lim", a, m, n, h] =>
+    match a.toNat?, m.toNat?, n.toNat?, hexToBytes? h with
+    | some a, some m, some n, some bs =>
+      match decodeAll bs with
+      | some _ => (s, if (decodeAllLimited ⟨a, m, n⟩ bs).isSome then "ok" else "rejected")
+      | none => (s, "err")
+    | _, _, _, _ => (s, "bad-op")
   | ["utf8", h] =>
     match hexToBytes? h with
     | some bs => (s, toString (utf8Valid bs))
